@@ -637,3 +637,34 @@ def r16(ctx, R):
 def r17(ctx, R):
     from . import c03
     c03.r14(ctx, R)
+
+
+@rule('C02', 'C02.R18', "the library's own matrix form of the IMEX sweep is the iteration of the statement: get_scalar_problems_sweeper_mats returns LHS = I - dt*(lf*QI + ls*QE) and RHS = dt*((lf + ls)*Q - (lf*QI + ls*QE)) - compared symbolically after substituting single-assigned locals (test_imexsweeper and every project script use dt = 1, where a lost factor dt is invisible)", floor=2)
+def r18(ctx, R):
+    import sympy as sp
+    from .c12 import _newton_sym, _Unk
+    repo = ctx.repo
+    rel = 'pySDC/implementations/sweeper_classes/imex_1st_order.py'
+    fn = repo.func(rel, 'imex_1st_order.get_scalar_problems_sweeper_mats')
+    w = f'{rel}:imex_1st_order.get_scalar_problems_sweeper_mats'
+    R.fn(w)
+    keep = {'QI', 'QE', 'Q', 'dt', 'lambda_fast', 'lambda_slow', 'LHS', 'RHS'}
+    counts, vals = {}, {}
+    for s in ast.walk(fn):
+        if isinstance(s, ast.Assign) and len(s.targets) == 1 and isinstance(s.targets[0], ast.Name):
+            counts[s.targets[0].id] = counts.get(s.targets[0].id, 0) + 1
+            vals[s.targets[0].id] = s.value
+    if counts.get('LHS') != 1 or counts.get('RHS') != 1:
+        raise AnalysisError('get_scalar_problems_sweeper_mats: LHS / RHS are no longer single assignments - re-confirm C02.R18')
+    ret = [ast.unparse(r.value) for r in ast.walk(fn) if isinstance(r, ast.Return) and r.value is not None]
+    local = {k: v for k, v in vals.items() if counts[k] == 1 and k not in keep}
+    QI, QE, Q, dt, lf, ls = sp.symbols('QI QE Q dt lambda_fast lambda_slow')
+    want = {'LHS': 1 - dt * (lf * QI + ls * QE), 'RHS': dt * ((lf + ls) * Q - (lf * QI + ls * QE))}
+    for name in ('LHS', 'RHS'):
+        try:
+            got = _newton_sym(vals[name], '__no_iterate__', local)
+        except (_Unk, RecursionError) as e:
+            raise AnalysisError(f'get_scalar_problems_sweeper_mats: {name} is outside the vocabulary of C02.R18 ({e})')
+        d = sp.simplify(sp.expand(got - want[name]))
+        R.check(d == 0, f'imex_1st_order.get_scalar_problems_sweeper_mats :: {name}', w, str(want[name]), f'{name} - expected = {str(d)[:120]}' if d != 0 else 'equal')
+    R.check(ret == ['(LHS, RHS)'], 'imex_1st_order.get_scalar_problems_sweeper_mats :: returns (LHS, RHS)', w, 'return LHS, RHS', ret)
